@@ -1,8 +1,9 @@
 """C17 — position-based slices and DataView windows address exactly their region."""
 from vlib.tok import f64, s as S, lst
 from checks import regiongen as G
+from checks import arraygen as A
 ID = 'C17'
-THEOREMS = []
+THEOREMS = ['Nix.C17.slice_start_after_end', 'Nix.C17.slice_region_spec', 'Nix.C17.slice_arg_given', 'Nix.C17.slice_arg_unspecified', 'Nix.C17.slice_unspecified_full', 'Nix.C17.ndGt_false_iff', 'Nix.C17.view_oob_rejected', 'Nix.C17.view_read_eq_array_read_shifted', 'Nix.C17.transform_base', 'Nix.C17.inBox_window', 'Nix.C17.view_write_frame', 'Nix.C05.sliceDim_eq']
 RULE = ('slices: arrays of rank 1-3 with all descriptor kinds; start/end vectors of length 0..rank (+1), positions on / beside / between / outside '
         'coordinates, start > end, with / without units (own or rescaled), both RangeMatch modes. views: random windows inside arrays of rank 1-3; '
         '(count, offset) requests inside, touching and crossing the window edge; reads and writes interleaved, the array re-read after every write. '
@@ -44,7 +45,51 @@ def gen_slice(rng):
         if rng.random() < 0.15 and units: units = units[:-1]
     return shape, dims, starts, ends, units
 
+def view_history(rng, tier):
+    dt = rng.choice(['Int32', 'Double', 'Int64', 'UInt8', 'String', 'Float'])
+    shape = A.shape_for(rng, rank=rng.choice([1, 2, 2, 3]))
+    shape = [x + rng.choice([0, 2, 4]) for x in shape]
+    rank = len(shape)
+    lines = ['da_new %s %s none auto' % (dt, A.idx(shape))]
+    # fill the array so that every element is distinguishable
+    vals = [A.small_value(dt, rng) if dt != 'String' else 'x' + ('e%d' % k).encode().hex() for k in range(A.prod(shape))]
+    lines.append('da_wr %s %s %s %s' % (dt, A.idx(shape), A.idx([0] * rank), lst(vals)))
+    for _ in range(rng.randint(1, 3)):
+        # a window: mostly inside, sometimes crossing the array edge (constructor must refuse), sometimes wrong rank
+        off, cnt = A.sub_box(shape, rng, may_exceed=0.08)
+        if rng.random() < 0.05: cnt = cnt + [1]
+        lines.append('dv_new %s %s' % (A.idx(cnt), A.idx(off)))
+        wcnt = cnt[:rank]
+        for _ in range(rng.randint(3, 8 if tier == 'quick' else 16)):
+            # a request relative to the window: inside / touching the edge / crossing it
+            roff, rcnt = [], []
+            for n_ in wcnt:
+                o = rng.randrange(0, max(1, n_))
+                c = rng.randint(1, max(1, n_ - o))
+                q = rng.random()
+                if q < 0.12: c = max(1, n_ - o)            # touching the edge
+                elif q < 0.24: c = max(1, n_ - o) + rng.randint(1, 2)   # crossing it
+                roff.append(o); rcnt.append(c)
+            q = rng.random()
+            if q < 0.1: roff = []                          # offset omitted
+            if q > 0.93: rcnt = []                         # count omitted: the whole window
+            if q > 0.97: roff = roff + [0]                 # wrong rank
+            n_el = A.prod(rcnt) if rcnt else A.prod(wcnt)
+            if rng.random() < 0.55:
+                lines.append('dv_rd %s %s %s %d' % (dt, A.idx(rcnt), A.idx(roff), n_el))
+            else:
+                v = [A.small_value(dt, rng) if dt != 'String' else 'x' + ('w%d' % rng.randrange(1000)).encode().hex() for _ in range(n_el)]
+                lines.append('dv_wr %s %s %s %s' % (dt, A.idx(rcnt), A.idx(roff), lst(v)))
+                lines.append('da_rd %s %s %s %d' % (dt, A.idx(shape), A.idx([0] * rank), A.prod(shape)))   # nothing else may change
+    return lines
+
 def cases(tier, seed, rng):
+    from vlib.runner import Case
+    nv = 250 if tier == 'quick' else 6000
+    views = [Case(view_history(rng, tier), 'gen:view') for _ in range(nv)]
+    return views + slice_cases(tier, seed, rng)
+
+def slice_cases(tier, seed, rng):
     from vlib.runner import Case
     n = 1000 if tier == 'quick' else 25000
     out, batch = [], []
@@ -59,7 +104,12 @@ def cases(tier, seed, rng):
 
 def nontrivial(case, tags):
     return any(t.endswith('.ok') for t in tags)
+def minimal_view(f):
+    return None
 def signature(f):
     return '%s:%s:%s' % (f.kind, f.tag().split('.')[0], f.rule())
 def minimal(f):
-    return [f.case.lines[f.line_no]]
+    return [f.case.lines[f.line_no]] if f.case.lines[f.line_no].startswith('slice') else None
+
+LEVEL_TEXT = ('Lean 4 theorems: per dimension a slice is exactly the indices with coordinates in [start,end] / [start,end) (or the first index at or after start when start = end and the interval is empty), start > end is refused, unspecified dimensions are filled in and returned in full in both modes; a DataView request extending past the window in any dimension is refused with OutOfBounds without transferring data, a read is the array read at origin + offset, and a write through a view changes nothing outside the window (all ranks, windows and requests). Slices and views tied to dataSlice / DataView by element-exact correspondence with the history rule of C01 re-checking the whole array after every view write.')
+LEVEL_NOTE = ('Trusted: as C05 and C01.')
